@@ -339,6 +339,8 @@ def save(outf, obj):
         obj._save(outf)
     elif hasattr(obj, 'to_dataset'):
         obj=obj.copy()
+        # the values decide the type on file, not the file obj was loaded from
+        obj.encoding.pop('dtype', None)
         if obj.name is None:
             obj.name=os.path.splitext(os.path.split(outf)[-1])[0]
         obj.attrs = pack_attrs(obj)
